@@ -494,7 +494,7 @@ func orchestrate(prop, tier string) int {
 			// not reproducible from its materialised case: reported as
 			// infrastructure trouble, never as a VIOLATION; other violations of
 			// this batch are still reported
-			infra = append(infra, fmt.Errorf("a %s violation was dropped because it did not replay", v.Clause))
+			infra = append(infra, fmt.Errorf("a %s violation was dropped because it did not replay (run %d): %s", v.Clause, v.Case.Run, clipS(v.Msg, 700)))
 			nviol--
 			continue
 		}
